@@ -17,6 +17,7 @@ import (
 	"sync"
 	"sync/atomic"
 	"time"
+	"unicode/utf8"
 
 	"github.com/postalsys/muti-metroo/internal/agent"
 	"github.com/postalsys/muti-metroo/internal/config"
@@ -201,7 +202,7 @@ func main() {
 			case ch == '"' || ch == '\\':
 				sb.WriteByte('\\')
 				sb.WriteByte(ch)
-			case ch < 0x20 || ch >= 0x7f:
+			case ch < 0x20 || ch == 0x7f:
 				fmt.Fprintf(&sb, "\\x%02x", ch)
 			default:
 				sb.WriteByte(ch)
@@ -212,6 +213,12 @@ func main() {
 	}
 	// the executor as the product builds it: configuration text -> config.Parse -> agent.New
 	agentExec := func(a authCase) *shell.Executor {
+		for _, w := range a.Whitelist {
+			if !utf8.ValidString(w) { // not expressible as a YAML string
+				c.Count("via-agent:whitelist-not-utf8-direct-executor-used")
+				return nil
+			}
+		}
 		var sb strings.Builder
 		fmt.Fprintf(&sb, "agent:\n  data_dir: %s\n  log_level: error\n", yq(agentDir))
 		fmt.Fprintf(&sb, "shell:\n  enabled: %v\n  max_sessions: %d\n", a.Enabled, a.Max)
@@ -897,6 +904,11 @@ func main() {
 				a.Whitelist, a.Command, a.ViaAgent = wl, cmd, true
 				runAuth(a)
 			}
+		}
+		for _, cmd := range []string{"\xc3\xa9", "ls ", "", "bin\\ls", "LS"} {
+			a := base
+			a.Whitelist, a.Command, a.ViaAgent = []string{cmd, "x"}, cmd, true
+			runAuth(a)
 		}
 		for _, mx := range []int{0, 1, 3} {
 			for before := 0; before <= 3; before++ {
